@@ -10,11 +10,16 @@ let b64 = "ABCDEFGHIJKLMNOPQRSTUVWXYZabcdefghijklmnopqrstuvwxyz0123456789-_"
 let fake_name k =
   "Vf" ^ String.make 1 b64.[(k / 4096) mod 64] ^ String.make 1 b64.[(k / 64) mod 64]
   ^ String.make 1 b64.[k mod 64] ^ "AAAAAA"
-let id_of_index k = Url.parse_uid (bytes_of_string (fake_name k))
+let id_tbl = Hashtbl.create 1024
+let id_of_index k =
+  match Hashtbl.find_opt id_tbl k with
+  | Some i -> i
+  | None -> let i = Url.parse_uid (bytes_of_string (fake_name k)) in Hashtbl.add id_tbl k i; i
 
 let st = ref Files.init
 let uploaded : int list ref = ref []
 let pubs : (int * int) list ref = ref []      (* publish index -> topic index *)
+let owners : (string * string) list ref = ref []   (* topic -> the user that created it *)
 let index_of_id id =
   match List.find_opt (fun k -> id_of_index k = id) !uploaded with
   | Some k -> string_of_int k
@@ -59,7 +64,8 @@ let body b =
 let fault = function
   | "create" -> Files.FCreate | "start" -> Files.FStart | "finish" -> Files.FFinish | _ -> Files.FNone
 let effect = function
-  | Files.ENone -> "none" | Files.EStored -> "stored" | Files.EResidue -> "residue" | Files.EServed -> "served"
+  | Files.ENone -> "none" | Files.EStored -> "stored" | Files.EResidue -> "residue"
+  | Files.EResidueNoBytes -> "residue-nobytes" | Files.EServed -> "served"
 let status = function
   | Files.Reply (c, _) -> string_of_z c
   | Files.Crash _ -> "CRASH"
@@ -122,27 +128,38 @@ let handle (w : string list) : string =
     let (s', o) = Files.apply_upload !st r (id_of_index k) (z_of_int 0) [] in
     st := s';
     (match Files.effect_of o with
-     | Files.EStored | Files.EResidue -> uploaded := k :: !uploaded
+     | Files.EStored | Files.EResidue | Files.EResidueNoBytes -> uploaded := k :: !uploaded
      | _ -> ());
     "UP " ^ status o ^ " " ^ effect (Files.effect_of o)
+  | ["INFLIGHT"; ks; _; _] ->
+    (* an upload between StartUpload and FinishUpload: record in status 'started', bytes written *)
+    let k = int_of_string ks in
+    st := Files.step !st (Files.OStart (id_of_index k, z_of_int 0, []));
+    uploaded := k :: !uploaded;
+    "INFLIGHT ok"
   | "SV" :: rest ->
     let m = kv rest in
     let g = get m in
     let has_query = g "kq" <> "-" || g "cq" <> "-" || g "sq" <> "-" || g "asatt" <> "-" in
     let url = expand (g "url") ^ (if has_query then "?q" else "") in
-    let found = Files.download !st (bytes_of_string serve_url) (bytes_of_string url) in
     let r = { Files.s_meth = meth (g "m");
               s_keys = [key (g "kh"); key (g "kq"); None; key (g "kc")];
               s_creds = [cred (g "cx"); cred (g "ca"); cred (g "cq"); None; cred (g "cc")];
               s_sid = sid (g "sq"); s_handler = handler (g "mh"); s_hdr = hdr (g "mh");
-              s_found = (found <> None) } in
-    let o = Files.serve_gate r in
+              s_found = false (* computed by serve_request from the store slice *) } in
+    let (o, sent) = Files.serve_request !st r (bytes_of_string serve_url) (bytes_of_string url) in
     "SV " ^ status o ^ " " ^
-    (match Files.effect_of o, found with
-     | Files.EServed, Some f -> "served:" ^ index_of_id f.Files.f_id
-     | e, _ -> effect e)
+    (match sent with
+     | Some f -> "served:" ^ index_of_id f.Files.f_id
+     | None -> effect (Files.effect_of o))
   | ["USER"; u] -> st := Files.step !st (Files.OAddUser (n_of_string u)); "USER ok"
-  | ["TOPIC"; t; _; tpls] ->
+  | ["NEWACC"; u; tpls] ->
+    (* replyCreateUser: Users.Create, then Files.LinkAttachments("usrX", 0, attachments) *)
+    st := Files.step !st (Files.OAddUser (n_of_string u));
+    st := Files.step !st (Files.OUserAvatar (n_of_string u, resolve tpls));
+    "NEWACC 201"
+  | ["TOPIC"; t; o; tpls] ->
+    owners := (t, o) :: !owners;
     st := Files.step !st (Files.OAddTopic (n_of_string t));
     st := Files.step !st (Files.OTopicAvatar (n_of_string t, resolve tpls));
     "TOPIC 200"
@@ -160,7 +177,11 @@ let handle (w : string list) : string =
     if ks = [] then "DELMSG skip"
     else begin st := Files.step !st (Files.ODelMsgs (List.map n_of_int ks)); "DELMSG 200" end
   | ["DELTOPIC"; _; t] -> st := Files.step !st (Files.ODelTopic (n_of_string t)); "DELTOPIC 200"
-  | ["DELUSER"; u] -> st := Files.step !st (Files.ODelUser (n_of_string u)); "DELUSER 200"
+  | ["DELUSER"; u] ->
+    (* hard deletion of an account deletes the topics it owns (UserDelete, adapter.go:1131-1156):
+       one ODelTopic per owned topic, then ODelUser *)
+    List.iter (fun (t, o) -> if o = u then st := Files.step !st (Files.ODelTopic (n_of_string t))) !owners;
+    st := Files.step !st (Files.ODelUser (n_of_string u)); "DELUSER 200"
   | ["GC"; kind; lim] ->
     let older = match kind with
       | "future" -> Some (z_of_int 1) | "past" -> Some (z_of_int (-1)) | _ -> None in
